@@ -123,6 +123,16 @@ def multipart_scripts(ctx, rng):
                 {"ev": "complete", "u": 1, "b": "b1", "k": "mp", "parts": [1]},
                 {"ev": "part", "u": 1, "b": "b1", "k": "mp", "n": 2, "seg": "t7", "mode": "plain", "chunk": 0},
                 {"ev": "dump"}])
+    # UploadPartCopy whose source is no object: a key that never existed, a folder with a key below it, a folder
+    # left behind by a single delete - none may become the content of a part
+    for pre, src in (([], "a"), ([{"ev": "put", "b": "b2", "k": "a/b", "seg": "k3", "mode": "plain", "chunk": 70000}], "a"),
+                     ([{"ev": "put", "b": "b2", "k": "a/a", "seg": "k3", "mode": "plain", "chunk": 70000},
+                       {"ev": "del", "b": "b2", "k": "a/a"}], "a")):
+        out.append(pre + [{"ev": "init", "u": 1, "b": "b1", "k": "mp"},
+                          {"ev": "part", "u": 1, "b": "b1", "k": "mp", "n": 1, "seg": "c9", "mode": "plain", "chunk": 70000},
+                          {"ev": "pcopy", "u": 1, "b": "b1", "k": "mp", "n": 2, "sb": "b2", "sk": src, "lo": 0, "hi": -1},
+                          {"ev": "complete", "u": 1, "b": "b1", "k": "mp", "parts": [1, 2]},
+                          {"ev": "get", "b": "b1", "k": "mp", "ranges": []}, {"ev": "dump"}])
     x = mp_exec("b1", "ab", [(2, "t7"), (1, "h100")])
     out.append(x[:-2] + [{"ev": "complete", "u": 1, "b": "b1", "k": "ab", "parts": [1, 2]}] + x[-2:])
     return out
